@@ -1,4 +1,5 @@
 // kv-mount: src/second_chance.rs
+// kv-needs: kfs
 //
 // C08 — the eviction planner equals the classical Second Chance queue on every input.
 //
@@ -400,3 +401,26 @@ fn c08_sanity_twin() {
     std::mem::forget(u);
     assert!(false, "KV-SANITY: reachable end of harness");
 }
+
+// The specification-level planner used by the prune harnesses satisfies the same oracle.
+macro_rules! spec_planner_harness {
+    ($name:ident, $n:tt, $unwind:expr) => {
+        #[kani::proof]
+        #[kani::unwind($unwind)]
+        fn $name() {
+            let mut es: [E; $n] = [E { id: 0, rank: 0, accessed: false }; $n];
+            let mut i = 0;
+            while i < $n {
+                es[i] = E { id: i as u8, rank: small_rank(), accessed: kani::any() };
+                i += 1;
+            }
+            let cap: usize = kani::any();
+            let u = Update::kv_spec_new(es, cap);
+            check_plan::<E, $n>(&es, cap, &u);
+            kani::cover!(cap == 0, "capacity 0 reachable");
+            std::mem::forget(u);
+        }
+    };
+}
+spec_planner_harness!(c08_spec_planner_n2, 2, 6);
+spec_planner_harness!(c08_spec_planner_n3, 3, 6);
